@@ -139,7 +139,7 @@ Proof.
     set (p := mkop cb all len 0 false).
     set (o0 := if write then with_wr ob (Some p) (o_evW ob) (o_reg ob) else with_rd ob (Some p) (o_evR ob) (o_reg ob)).
     assert (Ho0 : clok o0) by (unfold o0; destruct write; apply (clok_bits ob); auto).
-    assert (H0 : cl_inv (add_log s (LStart cb o write all len))) by (apply (cl_same_objs s); [reflexivity|exact Hi]).
+    assert (H0 : cl_inv (note_overlap (add_log s (LStart cb o write all len)) (if write then o_evW ob else o_evR ob))) by (apply (cl_same_objs s); [reflexivity|exact Hi]).
     destruct (l_disp _ <? sonic_MaxCallbackDispatch).
     + apply io_now_cl. apply cl_set_obj; assumption.
     + apply schedule_cl; assumption.
@@ -195,7 +195,7 @@ Qed.
 Theorem lstep_cl s o : cl_inv s -> cl_inv (lstep s o).
 Proof.
   intros Hi. unfold lstep.
-  set (s1 := mkloop (l_pending s) (l_disp s) (l_posts s) (l_objs s) (l_tmrs s) (l_progs s) (l_now s) (l_depth s) (l_log s) (l_fuel_out s) 300).
+  set (s1 := mkloop (l_pending s) (l_disp s) (l_posts s) (l_objs s) (l_tmrs s) (l_progs s) (l_now s) (l_depth s) (l_log s) (l_fuel_out s) 300 (l_overlap s)).
   assert (H1 : cl_inv s1) by exact Hi.
   destruct o.
   - apply cl_set_obj; [exact H1|]. unfold clok, new_obj; cbn. discriminate.
